@@ -20,7 +20,7 @@ CONSTANTS
   GridNum = 10
   MeshExpand = 0
   MeshIncr = 1
-  NVals = 3
+  NVals = 2
   Faults = TRUE
 INVARIANT BudgetRespected
 INVARIANT IterBounded
